@@ -143,6 +143,18 @@ def check(prog, res, tier):
             fails += need_ge0(st, Lin.const(CAP) - b.length(), f'a carrier string may grow to {st.canon(b.length())} characters '
                                                                 f'(bounds {st.bounds(b.length())}), more than {CAP}')
         return fails
+    # ---- C12.a (acceptance) every admissible set is packed: tags of 4 digits, values of 0..992 characters
+    def chk_accept(p, mode):
+        if p.outcome != 'raise':
+            return []
+        exc = p.value
+        return [definite(f'the packer refuses a set of sub-elements whose values all have 0..992 characters ({exc!r}): a value of '
+                         f'992 characters fills a carrier exactly (7 + 992 = 999) and is representable',
+                         getattr(exc, 'raise_node', None) or exc.node, firm=True)]
+    chk_accept.no_return_ok = False
+    res.add(runs.judge('C12.a', 'the packer accepts every set of PDS sub-elements with values of 0..992 characters', func_where(pfi),
+                       '_pds_to_de(message) raises nothing for admissible values', chk_accept, rule='C12.a.accept'))
+
     res.add(runs.judge('C12.a', 'each sub-element is appended as tag(4 digits) ++ length(3 digits) ++ value and the carrier never exceeds 999 characters',
                        func_where(pfi), "add_output = f'{tag:04}{length:03}{value}'; if len(output + add_output) > 999: flush", chk_a))
 
